@@ -451,7 +451,8 @@ pub fn to_duration(num: &Number) -> Result<Duration, String> {
         return Err("Expected seconds".to_string());
     }
     let max = Numeric::from(i64::max_value() / 1000);
-    if num.value.abs() > max {
+    // NaN compares false both ways and is not in range either.
+    if !(num.value.abs() <= max) {
         return Err(format!(
             "Implementation error: Number is out of range ({:?})",
             max
